@@ -1077,7 +1077,19 @@ func (e *Engine) rebindContracts(base map[string]Shape) {
 				}
 			}
 		} else {
-			fc.Detached = true
+			fc.Detached = true // provisional, see below
+		}
+	}
+	// a contract that found no other function stays with the function under its own key unless that
+	// function was claimed by another contract (then it describes code that no longer exists here)
+	for _, key := range pending {
+		fc := e.contracts.funcs[key]
+		if !fc.Detached {
+			continue
+		}
+		if fn := e.fnByKey[key]; fn != nil && !claimed[fn] {
+			fc.Detached = false
+			claimed[fn] = true
 		}
 	}
 	// rebuild the function table under the (possibly overridden) names
